@@ -27,6 +27,10 @@ def names(seed, n):
            b"Fixed/UTC+01:00:00 ", b" Fixed/UTC+01:00:00", b"Fixed/UTC+01:00:00\x00", b"Fixed/UTC+00:\x00\x00:00",
            b"Fixed/UTC+\x00\x00:00:00", b"Fixed/UTC+00:00:\x00\x00", b"Fixed/UTC+0\x00:00:00", b"Fixed/UTC+01:00", b"Fixed/UTC+0100",
            b"Fixed/UTC+01:00:00:00", b"Fixed/GMT+01:00:00", b"Fixed/UTC*01:00:00", b"Fixed/UTC+1A:00:00", b"Fixed/UTC+01:6A:00"]
+    # valid spellings behind a prefix / suffix / directory that other parts of the loader strip or add
+    for base in (b"UTC", b"UTC0", b"Fixed/UTC+01:00:00", b"Fixed/UTC-23:59:59", b"Fixed/UTC+00:00:00", b"Fixed/UTC+24:00:00"):
+        out += [b"file:" + base, b":" + base, b"/" + base, b"./" + base, base + b"/", b"file:/" + base,
+                b"Etc/" + base, b"posix/" + base, base.lower(), base.upper(), base + b"\n", b"\t" + base]
     alphabet = [bytes([b]) for b in b"0123456789:+-/ AZ\x00\xff.,"]
     for _ in range(n):
         o = r.choice([r.randrange(-90000, 90001), r.choice([1, -1, 59, -59, 60, 3600, 86399, 86400, -86400, 86340, 45296])])
